@@ -32,9 +32,10 @@
      ev_drops ids     := map EvDrop ids : the events "Drop::drop ran on the
                       object with identity id", one per identity; the log is
                       the ledger of destructions, so
-                      logged w w' (ev_drops (idK E k ++ idV E v))
-                      says: during the call exactly the key k and the value v
-                      were destroyed, each once, and nothing else.
+                      logged w w' (ev_drops (idV E v ++ idK E k))
+                      says: during the call exactly the value v and the key k
+                      were destroyed (in this order: the two parameters of insert
+                      die in reverse declaration order), each once, and nothing else.
      wp c Qn Qp w     c started in w does not reach UB; Qn holds of result and
                       final world on return, Qp of the world left by a panic.
      How to read a wp statement as "a full container panics":
@@ -43,7 +44,7 @@
        so from an absent key on a full container (len = cap) the call cannot
        return; UB is excluded by wp; hence it panics, and the panic clause
        applies:  self w' = self w  (the container holds exactly its previous
-       entries) and  logged w w' (ev_drops (idK E k ++ idV E v))  (the
+       entries) and  logged w w' (ev_drops (idV E v ++ idK E k))  (the
        rejected key and value are destroyed exactly once: the model runs the
        destructors of the locals a frame owns when a panic unwinds through
        it).  Conversely the panic clause says it panics ONLY when the key is
@@ -58,7 +59,7 @@
      insert_key_value                                       C03_insert_key_value_lawful
      checked_insert: never panics; on full + absent returns None,
        self w' = self w, and the rejected key and value are destroyed once
-       (logged ... ev_drops (idK E k ++ idV E v))           C03_checked_insert_lawful
+       (logged ... ev_drops (idV E v ++ idK E k))           C03_checked_insert_lawful
      entry(k).or_insert(v) / or_insert_with / or_insert_with_key
                                                             C03_or_insert_lawful,
                                                             C03_or_insert_with_lawful,
@@ -66,7 +67,7 @@
      VacantEntry::insert                                    C03_vac_insert_lawful
      "the rejected key and value have been destroyed once": carried by the
        panic clause of each of the seven theorems above
-       (logged w w' (ev_drops (idK E k ++ idV E v)); for or_insert_with* the
+       (logged w w' (ev_drops (idV E v ++ idK E k)); for or_insert_with* the
        value is the one the closure produced, after its EvCall 2), and by the
        checked_insert theorem for the non-panicking rejection.  For EVERY
        environment (no Lawful): every panic of insert_ii is such a clean
@@ -141,7 +142,7 @@ Theorem C03_insert_ii_lawful :
        (find_idx ck (ck k) (Spec.elems (self w)) = None -> len (self w) < cap (self w)))
     (fun w' : world K V T =>
        self w' = self w /\
-       logged w w' (ev_drops (idK E k ++ idV E v)) /\
+       logged w w' (ev_drops (idV E v ++ idK E k)) /\
        find_idx ck (ck k) (Spec.elems (self w)) = None /\
        len (self w) = cap (self w))
     w.
@@ -166,7 +167,7 @@ Theorem C03_insert_lawful :
          end)
     (fun w' : world K V T =>
        self w' = self w /\
-       logged w w' (ev_drops (idK E k ++ idV E v)) /\
+       logged w w' (ev_drops (idV E v ++ idK E k)) /\
        find_idx ck (ck k) (Spec.elems (self w)) = None /\
        len (self w) = cap (self w))
     w.
@@ -187,7 +188,7 @@ Theorem C03_insert_key_value_lawful :
        r = snd (l_insert ck (Spec.elems (self w)) k v true))
     (fun w' : world K V T =>
        self w' = self w /\
-       logged w w' (ev_drops (idK E k ++ idV E v)) /\
+       logged w w' (ev_drops (idV E v ++ idK E k)) /\
        find_idx ck (ck k) (Spec.elems (self w)) = None /\
        len (self w) = cap (self w))
     w.
@@ -217,7 +218,7 @@ Theorem C03_checked_insert_lawful :
            else Spec.elems (self w') = Spec.elems (self w) /\
                 self w' = self w /\
                 r = None /\
-                logged w w' (ev_drops (idK E k ++ idV E v))
+                logged w w' (ev_drops (idV E v ++ idK E k))
        end)
     (fun _ : world K V T => False)
     w.
@@ -244,7 +245,7 @@ Theorem C03_or_insert_lawful :
        end)
     (fun w' : world K V T =>
        self w' = self w /\
-       logged w w' (ev_drops (idK E k ++ idV E v)) /\
+       logged w w' (ev_drops (idV E v ++ idK E k)) /\
        find_idx ck (ck k) (Spec.elems (self w)) = None /\
        len (self w) = cap (self w))
     w.
@@ -273,7 +274,7 @@ Theorem C03_or_insert_with_lawful :
        self w' = self w /\
        (exists (v : V) (s s' : T),
           f s = (Some v, s') /\
-          logged w w' ([EvCall 2] ++ ev_drops (idK E k ++ idV E v))) /\
+          logged w w' ([EvCall 2] ++ ev_drops (idV E v ++ idK E k))) /\
        find_idx ck (ck k) (Spec.elems (self w)) = None /\
        len (self w) = cap (self w))
     w.
@@ -300,7 +301,7 @@ Theorem C03_or_insert_with_key_lawful :
        self w' = self w /\
        (exists (v : V) (s s' : T),
           f k s = (Some v, s') /\
-          logged w w' ([EvCall 2] ++ ev_drops (idK E k ++ idV E v))) /\
+          logged w w' ([EvCall 2] ++ ev_drops (idV E v ++ idK E k))) /\
        find_idx ck (ck k) (Spec.elems (self w)) = None /\
        len (self w) = cap (self w))
     w.
@@ -323,7 +324,7 @@ Theorem C03_vac_insert_lawful :
        len (self w) < cap (self w))
     (fun w' : world K V T =>
        self w' = self w /\
-       logged w w' (ev_drops (idK E k ++ idV E v)) /\
+       logged w w' (ev_drops (idV E v ++ idK E k)) /\
        len (self w) = cap (self w))
     w.
 Proof. exact (@vac_insert_lawful). Qed.
@@ -451,7 +452,7 @@ Theorem C03_insert_ii_strong :
               (match snd r with Some p => ids_pair E p | None => [] end) lost /\
          (Tidy (self w) -> lost = [] /\ Tidy (self w')))
     (fun w' : world K V T =>
-       self w' = self w /\ log w' = log w ++ ev_drops (ids_pair E (k, v)))
+       self w' = self w /\ log w' = log w ++ ev_drops (idV E v ++ idK E k))
     w.
 Proof. exact (@insert_ii_strong). Qed.
 Print Assumptions C03_insert_ii_strong.
@@ -466,7 +467,7 @@ Theorem C03_insert_panic_cases :
   wp (insert E debug k v)
     (fun (_ : option V) (_ : world K V T) => True)
     (fun w' : world K V T =>
-       (self w' = self w /\ log w' = log w ++ ev_drops (ids_pair E (k, v))) \/
+       (self w' = self w /\ log w' = log w ++ ev_drops (idV E v ++ idK E k)) \/
        (exists (w1 : world K V T) (k' : K) (v' : V),
           (WF (self w1) /\
            cap (self w1) = cap (self w) /\
@@ -592,7 +593,7 @@ Proof. split; [exact m3_WF|]. split; vm_compute; reflexivity. Qed.
 Example C03_example_insert_full_release :
   match insert (env_map {| sc_adv := false; sc_seed := 0; sc_fk := 0; sc_fa := 0 |}) false
                (k_ 9 9) (v_ 10 10) (w_of m3) with
-  | Panic w' => self w' = m3 /\ log w' = [EvDrop 9; EvDrop 10]
+  | Panic w' => self w' = m3 /\ log w' = [EvDrop 10; EvDrop 9]
   | _ => False
   end.
 Proof. vm_compute. split; reflexivity. Qed.
@@ -601,7 +602,7 @@ Proof. vm_compute. split; reflexivity. Qed.
 Example C03_example_insert_full_debug :
   match insert (env_map {| sc_adv := false; sc_seed := 0; sc_fk := 0; sc_fa := 0 |}) true
                (k_ 9 9) (v_ 10 10) (w_of m3) with
-  | Panic w' => self w' = m3 /\ log w' = [EvDrop 9; EvDrop 10]
+  | Panic w' => self w' = m3 /\ log w' = [EvDrop 10; EvDrop 9]
   | _ => False
   end.
 Proof. vm_compute. split; reflexivity. Qed.
@@ -609,7 +610,7 @@ Proof. vm_compute. split; reflexivity. Qed.
 Example C03_example_insert_cap0 :
   match insert (env_map {| sc_adv := false; sc_seed := 0; sc_fk := 0; sc_fa := 0 |}) false
                (k_ 9 9) (v_ 10 10) (w_of (new_map 0)) with
-  | Panic w' => self w' = new_map 0 /\ log w' = [EvDrop 9; EvDrop 10]
+  | Panic w' => self w' = new_map 0 /\ log w' = [EvDrop 10; EvDrop 9]
   | _ => False
   end.
 Proof. vm_compute. split; reflexivity. Qed.
@@ -618,7 +619,7 @@ Proof. vm_compute. split; reflexivity. Qed.
 Example C03_example_checked_insert_full :
   match checked_insert (env_map {| sc_adv := false; sc_seed := 0; sc_fk := 0; sc_fa := 0 |}) false
                        (k_ 9 9) (v_ 10 10) (w_of m3) with
-  | Ok r w' => r = None /\ self w' = m3 /\ log w' = [EvDrop 9; EvDrop 10]
+  | Ok r w' => r = None /\ self w' = m3 /\ log w' = [EvDrop 10; EvDrop 9]
   | _ => False
   end.
 Proof. vm_compute. repeat split; reflexivity. Qed.
@@ -706,7 +707,7 @@ Theorem C03_insert_ii_full_panics :
   exists w' : world K V T,
     insert_ii E debug k v u w = Panic w' /\
     self w' = self w /\
-    logged w w' (ev_drops (idK E k ++ idV E v)).
+    logged w w' (ev_drops (idV E v ++ idK E k)).
 Proof. exact (@insert_ii_full_panics). Qed.
 Print Assumptions C03_insert_ii_full_panics.
 
@@ -720,7 +721,7 @@ Theorem C03_insert_full_panics :
   exists w' : world K V T,
     insert E debug k v w = Panic w' /\
     self w' = self w /\
-    logged w w' (ev_drops (idK E k ++ idV E v)).
+    logged w w' (ev_drops (idV E v ++ idK E k)).
 Proof. exact (@insert_full_panics). Qed.
 Print Assumptions C03_insert_full_panics.
 
@@ -734,7 +735,7 @@ Theorem C03_insert_key_value_full_panics :
   exists w' : world K V T,
     insert_key_value E debug k v w = Panic w' /\
     self w' = self w /\
-    logged w w' (ev_drops (idK E k ++ idV E v)).
+    logged w w' (ev_drops (idV E v ++ idK E k)).
 Proof. exact (@insert_key_value_full_panics). Qed.
 Print Assumptions C03_insert_key_value_full_panics.
 
@@ -748,7 +749,7 @@ Theorem C03_vac_insert_full_panics :
   exists w' : world K V T,
     vac_insert E debug k v w = Panic w' /\
     self w' = self w /\
-    logged w w' (ev_drops (idK E k ++ idV E v)).
+    logged w w' (ev_drops (idV E v ++ idK E k)).
 Proof. exact (@vac_insert_full_panics). Qed.
 Print Assumptions C03_vac_insert_full_panics.
 
@@ -764,7 +765,7 @@ Theorem C03_checked_insert_full_none :
   exists w' : world K V T,
     checked_insert E debug k v w = Ok None w' /\
     self w' = self w /\
-    logged w w' (ev_drops (idK E k ++ idV E v)).
+    logged w w' (ev_drops (idV E v ++ idK E k)).
 Proof. exact (@checked_insert_full_none). Qed.
 Print Assumptions C03_checked_insert_full_none.
 
@@ -792,7 +793,7 @@ Theorem C03_or_insert_full_panics :
   exists w' : world K V T,
     (e <- entry_of E k ;; or_insert E debug e v) w = Panic w' /\
     self w' = self w /\
-    logged w w' (ev_drops (idK E k ++ idV E v)).
+    logged w w' (ev_drops (idV E v ++ idK E k)).
 Proof. exact (@or_insert_full_panics). Qed.
 Print Assumptions C03_or_insert_full_panics.
 
@@ -845,7 +846,7 @@ Theorem C03_or_insert_with_full_panics :
     f (cb w1) = (Some v, s') /\
     (e <- entry_of E k ;; or_insert_with E debug e f) w = Panic w' /\
     self w' = self w /\
-    logged w w' ([EvCall 2] ++ ev_drops (idK E k ++ idV E v)).
+    logged w w' ([EvCall 2] ++ ev_drops (idV E v ++ idK E k)).
 Proof. exact (@or_insert_with_full_panics). Qed.
 Print Assumptions C03_or_insert_with_full_panics.
 
@@ -862,7 +863,7 @@ Theorem C03_or_insert_with_key_full_panics :
     f k (cb w1) = (Some v, s') /\
     (e <- entry_of E k ;; or_insert_with_key E debug e f) w = Panic w' /\
     self w' = self w /\
-    logged w w' ([EvCall 2] ++ ev_drops (idK E k ++ idV E v)).
+    logged w w' ([EvCall 2] ++ ev_drops (idV E v ++ idK E k)).
 Proof. exact (@or_insert_with_key_full_panics). Qed.
 Print Assumptions C03_or_insert_with_key_full_panics.
 
@@ -882,7 +883,7 @@ Theorem C03_or_default_full_panics :
     entry_of E k w = Ok (Vacant k) w1 /\ self w1 = self w /\ log w1 = log w /\
     (e <- entry_of E k ;; or_insert_with E debug e (mk_of d)) w = Panic w' /\
     self w' = self w /\
-    logged w w' ([EvCall 2] ++ ev_drops (idK E k ++ idV E (fst (d (cb w1))))).
+    logged w w' ([EvCall 2] ++ ev_drops (idV E (fst (d (cb w1))) ++ idK E k)).
 Proof. exact (@or_default_full_panics). Qed.
 Print Assumptions C03_or_default_full_panics.
 
@@ -912,7 +913,7 @@ Theorem C03_or_insert_with_tied :
        (exists (w1 : world K V T) (v : V) (s' : T),
           entry_of E k w = Ok (Vacant k) w1 /\
           f (cb w1) = (Some v, s') /\
-          logged w w' ([EvCall 2] ++ ev_drops (idK E k ++ idV E v))) /\
+          logged w w' ([EvCall 2] ++ ev_drops (idV E v ++ idK E k))) /\
        find_idx ck (ck k) (Spec.elems (self w)) = None /\
        len (self w) = cap (self w))
     w.
@@ -943,7 +944,7 @@ Theorem C03_or_insert_with_key_tied :
        (exists (w1 : world K V T) (v : V) (s' : T),
           entry_of E k w = Ok (Vacant k) w1 /\
           f k (cb w1) = (Some v, s') /\
-          logged w w' ([EvCall 2] ++ ev_drops (idK E k ++ idV E v))) /\
+          logged w w' ([EvCall 2] ++ ev_drops (idV E v ++ idK E k))) /\
        find_idx ck (ck k) (Spec.elems (self w)) = None /\
        len (self w) = cap (self w))
     w.
@@ -973,7 +974,7 @@ Theorem C03_s_insert_lawful :
        (find_idx ck (ck k) (Spec.elems (self w)) = None -> len (self w) < cap (self w)))
     (fun w' : world K unit T =>
        self w' = self w /\
-       logged w w' (ev_drops (idK E k ++ idV E tt)) /\
+       logged w w' (ev_drops (idV E tt ++ idK E k)) /\
        find_idx ck (ck k) (Spec.elems (self w)) = None /\
        len (self w) = cap (self w))
     w.
@@ -999,7 +1000,7 @@ Theorem C03_s_replace_lawful :
        (find_idx ck (ck k) (Spec.elems (self w)) = None -> len (self w) < cap (self w)))
     (fun w' : world K unit T =>
        self w' = self w /\
-       logged w w' (ev_drops (idK E k ++ idV E tt)) /\
+       logged w w' (ev_drops (idV E tt ++ idK E k)) /\
        find_idx ck (ck k) (Spec.elems (self w)) = None /\
        len (self w) = cap (self w))
     w.
@@ -1016,7 +1017,7 @@ Theorem C03_s_insert_full_panics :
   exists w' : world K unit T,
     s_insert E debug k w = Panic w' /\
     self w' = self w /\
-    logged w w' (ev_drops (idK E k ++ idV E tt)).
+    logged w w' (ev_drops (idV E tt ++ idK E k)).
 Proof. exact (@s_insert_full_panics). Qed.
 Print Assumptions C03_s_insert_full_panics.
 
@@ -1030,7 +1031,7 @@ Theorem C03_s_replace_full_panics :
   exists w' : world K unit T,
     s_replace E debug k w = Panic w' /\
     self w' = self w /\
-    logged w w' (ev_drops (idK E k ++ idV E tt)).
+    logged w w' (ev_drops (idV E tt ++ idK E k)).
 Proof. exact (@s_replace_full_panics). Qed.
 Print Assumptions C03_s_replace_full_panics.
 
@@ -1041,7 +1042,11 @@ Print Assumptions C03_s_replace_full_panics.
    and value have been destroyed once".
 
    Vocabulary (Proofs/MoreBulk.v; the two definitions are restated as theorems):
-     pair_drops E p        the Drop events of the pair p: ev_drops (idK E (fst p) ++ idV E (snd p))
+     pair_drops E p        the Drop events of a TUPLE p the source still owns (or a stored
+                           entry): key then value, ev_drops (idK E (fst p) ++ idV E (snd p))
+     arg_drops E p         the Drop events of a rejected ARGUMENT pair (the two parameters
+                           k, v of insert are destroyed in reverse declaration order):
+                           value then key, ev_drops (idV E (snd p) ++ idK E (fst p))
      ext_evs E ck l items  the events of inserting items one by one into the list l:
                            per item one EvCall 1 (the pull), then - if its key was
                            present - the Drop of the SUPPLIED key object and of the
@@ -1052,7 +1057,7 @@ Print Assumptions C03_s_replace_full_panics.
      - find_idx .. (ck (fst x)) .. = None and length = cap: x is a new key and the
        container is full (nothing was written: cap unchanged, WF kept, no UB);
      - the log is EXACTLY: what building pre logged, the pull that yielded x, the
-       Drop of x (once), the Drop of every item of post (once each, in order: they
+       Drop of x (once; arg_drops: value first), the Drop of every item of post (once each, in order: they
        were never yielded; the source iterator owning them is dropped by the
        unwinding) - and nothing else;
      - from_iter (collect / From<[_; N]>) then destroys the partial container
@@ -1062,6 +1067,12 @@ Theorem C03_pair_drops_def :
   pair_drops E p = ev_drops (idK E (fst p) ++ idV E (snd p)).
 Proof. reflexivity. Qed.
 Print Assumptions C03_pair_drops_def.
+
+Theorem C03_arg_drops_def :
+  forall (K V Q T : Type) (E : env K V Q T) (p : K * V),
+  arg_drops E p = ev_drops (idV E (snd p) ++ idK E (fst p)).
+Proof. reflexivity. Qed.
+Print Assumptions C03_arg_drops_def.
 
 Theorem C03_ext_evs_def :
   forall (K V Q T : Type) (E : env K V Q T) (ck : K -> N) (l : list (K * V)),
@@ -1100,7 +1111,7 @@ Theorem C03_extend_loop_overflow :
          find_idx ck (ck (fst x)) (Spec.elems (self w')) = None /\
          length (Spec.elems (self w')) = cap (self w) /\
          log w' = log w ++ ext_evs E ck (Spec.elems (self w)) pre ++ [EvCall 1] ++
-                           pair_drops E x ++ flat_map (pair_drops E) post)
+                           arg_drops E x ++ flat_map (pair_drops E) post)
     w.
 Proof. exact (@extend_loop_overflow). Qed.
 Print Assumptions C03_extend_loop_overflow.
@@ -1122,7 +1133,7 @@ Theorem C03_extend_loop_overflow_panics :
     find_idx ck (ck (fst x)) (Spec.elems (self w')) = None /\
     length (Spec.elems (self w')) = cap (self w) /\
     log w' = log w ++ ext_evs E ck (Spec.elems (self w)) pre ++ [EvCall 1] ++
-                      pair_drops E x ++ flat_map (pair_drops E) post.
+                      arg_drops E x ++ flat_map (pair_drops E) post.
 Proof. exact (@extend_loop_overflow_panics). Qed.
 Print Assumptions C03_extend_loop_overflow_panics.
 
@@ -1148,7 +1159,7 @@ Theorem C03_from_iter_overflow :
          find_idx ck (ck (fst x)) res = None /\
          length res = cap (self w) /\
          log w' = log w ++ ext_evs E ck [] pre ++ [EvCall 1] ++
-                           pair_drops E x ++ flat_map (pair_drops E) post ++
+                           arg_drops E x ++ flat_map (pair_drops E) post ++
                            flat_map (pair_drops E) res)
     w.
 Proof. exact (@from_iter_overflow). Qed.
@@ -1193,7 +1204,7 @@ Theorem C03_s_extend_loop_overflow :
          find_idx ck (ck x) (Spec.elems (self w')) = None /\
          length (Spec.elems (self w')) = cap (self w) /\
          log w' = log w ++ s_ext_evs E ck (Spec.elems (self w)) pre ++ [EvCall 1] ++
-                           pair_drops E (x, tt) ++ flat_map (pair_drops E) (unit_items post))
+                           arg_drops E (x, tt) ++ flat_map (pair_drops E) (unit_items post))
     w.
 Proof. exact (@s_extend_loop_overflow). Qed.
 Print Assumptions C03_s_extend_loop_overflow.
@@ -1214,7 +1225,7 @@ Theorem C03_s_extend_loop_overflow_panics :
     find_idx ck (ck x) (Spec.elems (self w')) = None /\
     length (Spec.elems (self w')) = cap (self w) /\
     log w' = log w ++ s_ext_evs E ck (Spec.elems (self w)) pre ++ [EvCall 1] ++
-                      pair_drops E (x, tt) ++ flat_map (pair_drops E) (unit_items post).
+                      arg_drops E (x, tt) ++ flat_map (pair_drops E) (unit_items post).
 Proof. exact (@s_extend_loop_overflow_panics). Qed.
 Print Assumptions C03_s_extend_loop_overflow_panics.
 
@@ -1239,7 +1250,7 @@ Theorem C03_s_from_iter_overflow :
          find_idx ck (ck x) res = None /\
          length res = cap (self w) /\
          log w' = log w ++ s_ext_evs E ck [] pre ++ [EvCall 1] ++
-                           pair_drops E (x, tt) ++ flat_map (pair_drops E) (unit_items post) ++
+                           arg_drops E (x, tt) ++ flat_map (pair_drops E) (unit_items post) ++
                            flat_map (pair_drops E) res)
     w.
 Proof. exact (@s_from_iter_overflow). Qed.
@@ -1288,7 +1299,7 @@ Proof. intros s. eexists. eexists. reflexivity. Qed.
 (* entry(k).or_insert(v) on the full map, DEBUG build *)
 Example C03_example_or_insert_full :
   match (e <- entry_of (env_map C03_sc0) (k_ 9 9) ;; or_insert (env_map C03_sc0) true e (v_ 10 10)) (w_of m3) with
-  | Panic w' => self w' = m3 /\ log w' = [EvDrop 9; EvDrop 10]
+  | Panic w' => self w' = m3 /\ log w' = [EvDrop 10; EvDrop 9]
   | _ => False
   end.
 Proof. vm_compute. split; reflexivity. Qed.
@@ -1297,7 +1308,7 @@ Proof. vm_compute. split; reflexivity. Qed.
 Example C03_example_or_insert_with_full :
   match (e <- entry_of (env_map C03_sc0) (k_ 9 9) ;;
          or_insert_with (env_map C03_sc0) false e (mk_val C03_sc0 (v_ 10 10))) (w_of m3) with
-  | Panic w' => self w' = m3 /\ log w' = [EvCall 2; EvDrop 9; EvDrop 10] /\ n_call (cb w') = 1%N
+  | Panic w' => self w' = m3 /\ log w' = [EvCall 2; EvDrop 10; EvDrop 9] /\ n_call (cb w') = 1%N
   | _ => False
   end.
 Proof. vm_compute. repeat split; reflexivity. Qed.
@@ -1306,7 +1317,7 @@ Proof. vm_compute. repeat split; reflexivity. Qed.
 Example C03_example_or_default_full :
   match (e <- entry_of (env_map C03_sc0) (k_ 9 9) ;;
          or_insert_with (env_map C03_sc0) false e (mk_default C03_sc0)) (w_of m3) with
-  | Panic w' => self w' = m3 /\ log w' = [EvCall 2; EvDrop 9; EvDrop 100000] /\ n_call (cb w') = 1%N
+  | Panic w' => self w' = m3 /\ log w' = [EvCall 2; EvDrop 100000; EvDrop 9] /\ n_call (cb w') = 1%N
   | _ => False
   end.
 Proof. vm_compute. repeat split; reflexivity. Qed.
@@ -1342,7 +1353,7 @@ Proof. vm_compute. split; reflexivity. Qed.
    6, 7, 8, 5: item 1 replaces the value of class 6 (supplied key 11 and old value
    4 destroyed), item 2 (class 7) fills the map, item 3 (class 8) overflows:
    pre = items 1-2, x = item 3, post = item 4.  At the panic the map holds what
-   pre built; x (15, 16) and post (17, 18) are destroyed once; 3 pulls. *)
+   pre built; x (value 16, then key 15) and post (17, 18) are destroyed once; 3 pulls. *)
 Definition C03_m2 : map key vobj :=
   {| len := 2; slots := [Some (k_ 1 5, v_ 2 7); Some (k_ 3 6, v_ 4 8); None] |}.
 Definition C03_items : list (key * vobj) :=
@@ -1356,7 +1367,7 @@ Example C03_example_extend_overflow :
         = Some (Spec.elems (self w')) /\
       cap (self w') = 3 /\
       log w' = [EvCall 1; EvDrop 11; EvDrop 4; EvCall 1; EvCall 1;
-                EvDrop 15; EvDrop 16; EvDrop 17; EvDrop 18]
+                EvDrop 16; EvDrop 15; EvDrop 17; EvDrop 18]
   | _ => False
   end.
 Proof. vm_compute. repeat split; reflexivity. Qed.
@@ -1366,7 +1377,7 @@ Proof. vm_compute. repeat split; reflexivity. Qed.
 Example C03_example_from_iter_overflow :
   match from_iter (env_map C03_sc0) true nx_none C03_items (w_of (new_map 2)) with
   | Panic w' =>
-      log w' = [EvCall 1; EvCall 1; EvCall 1; EvDrop 15; EvDrop 16; EvDrop 17; EvDrop 18;
+      log w' = [EvCall 1; EvCall 1; EvCall 1; EvDrop 16; EvDrop 15; EvDrop 17; EvDrop 18;
                 EvDrop 11; EvDrop 12; EvDrop 13; EvDrop 14]
   | _ => False
   end.
